@@ -152,7 +152,19 @@ func confs() []hconf {
 		{"unbounded-elem17", 0, 0, false, 0, true, 17},
 		{"lru-size40-elem100(clamped)", 40, 0, true, 2, false, 100},
 		{"lru-size60-count3-elem18", 60, 3, true, 1, true, 18},
+		// values of very different lengths (see pad): replacing a short value by a long one needs evictions of
+		// other keys, so the OnDelete window opens in the middle of a replacing Set
+		{"lru-size90-longshort", 90, 0, true, 1, false, 0},
+		{"lru-size120-count4-longshort", 120, 4, true, 2, false, 0},
 	}
+}
+
+// pad is the number of filler bytes in every second value of the configuration (named "...-longshort").
+func (c hconf) pad() int {
+	if strings.HasSuffix(c.Name, "-longshort") {
+		return 30
+	}
+	return 0
 }
 
 // history runs one short concurrent history on a fresh cache.
@@ -171,7 +183,13 @@ type history struct {
 	cleared atomic.Bool
 }
 
-func mkVal(key string, worker, seq int) string {
+func mkVal(key string, worker, seq int) string { return mkValPad(key, worker, seq, 0) }
+
+func mkValPad(key string, worker, seq, pad int) string {
+	if pad > 0 && (worker+seq)%2 == 0 {
+		body := fmt.Sprintf("%s|%d|%d%s", key, worker, seq, strings.Repeat("_", pad))
+		return fmt.Sprintf("%s|%08x", body, crc32.ChecksumIEEE([]byte(body)))
+	}
 	// 15, 16 or 17 bytes for single-digit workers and sequence numbers: element-size limits of 17 and 18
 	// (key included) admit some and refuse others
 	body := fmt.Sprintf("%s|%d|%d%s", key, worker, seq, "__"[:(worker+seq)%3])
@@ -286,7 +304,7 @@ func (h *history) run(p plan, rng *rand.Rand) {
 				r := rec{in: input{Kind: s.kind, Key: key}, client: w}
 				switch s.kind {
 				case kSet:
-					v := mkVal(key, w, i)
+					v := mkValPad(key, w, i, h.conf.pad())
 					r.in.Val = v
 					kb, vb := []byte(key), []byte(v)
 					r.call = h.clock.Add(1)
